@@ -95,27 +95,28 @@ func TestC05(t *testing.T) {
 	names := []string{"x", "y"}
 	vf.Check(t, vf.Prop[c05Case]{
 		ID: "C05", Name: "predefined-lookups",
-		Rule: "exhaustive: clients {'*', a} x IDs {1,2} x names {x, y, absent}: all 81 maps, each queried for clients {'*', a, b}, IDs {1,2,3} and names {x,y,z}; random: maps over clients {'*', a, b, c}, IDs {0,1..6,0xFFFF}, 5 names, 0-5 entries per client, queried for all clients incl. one absent from the map. GetTopicID is repeated 6 times per query (it iterates a Go map). Non-trivial = a map in which some ID is defined for both a client and '*' with different names; distinct by map.",
+		Rule: "exhaustive: clients {'*', a} x IDs {1,2} x names {x, y, the empty name, absent}: all 256 maps, each queried for clients {'*', a, b}, IDs {1,2,3} and names {x,y,z,empty}; random: maps over clients {'*', a, b, c}, IDs {0,1..6,0xFFFF}, 5 names and the empty name, 0-5 entries per client, queried for all clients incl. one absent from the map. GetTopicID is repeated 6 times per query (it iterates a Go map). Non-trivial = a map in which some ID is defined for both a client and '*' with different names; distinct by map.",
 		Assumptions: []string{"completeness of GetTopicID (finding an ID whenever one exists) is counted (extra.c05_id_lookup_incomplete) but not asserted: the property does not claim it"},
 		Exhaustive: func(tier string, yield func(c05Case)) {
-			opts := []string{"", "x", "y"}
-			for a := 0; a < 81; a++ {
+			// "-" = no entry; the empty name is a legal entry (the YAML loader and the option parser accept it)
+			opts := []string{"-", "x", "y", ""}
+			for a := 0; a < 256; a++ {
 				m := map[string]map[uint16]string{}
 				v := a
 				for _, slot := range []struct {
 					cl string
 					id uint16
 				}{{"*", 1}, {"*", 2}, {"a", 1}, {"a", 2}} {
-					n := opts[v%3]
-					v /= 3
-					if n != "" {
+					n := opts[v%4]
+					v /= 4
+					if n != "-" {
 						if m[slot.cl] == nil {
 							m[slot.cl] = map[uint16]string{}
 						}
 						m[slot.cl][slot.id] = n
 					}
 				}
-				yield(c05Case{Map: m, Clients: []string{"*", "a", "b"}, IDs: []uint16{1, 2, 3}, Names: []string{"x", "y", "z"}})
+				yield(c05Case{Map: m, Clients: []string{"*", "a", "b"}, IDs: []uint16{1, 2, 3}, Names: []string{"x", "y", "z", ""}})
 			}
 			// the repository's own example configuration
 			yield(c05Case{Map: map[string]map[uint16]string{"client1": {1: "device/000001/data", 2: "device/000001/config"},
@@ -124,7 +125,7 @@ func TestC05(t *testing.T) {
 				Names: []string{"device/000001/data", "device/000001/config", "device/any/data", "device/any/config", "device/any/bcast"}})
 		},
 		Gen: func(t *rapid.T) c05Case {
-			pool := []string{"n1", "n2", "n3", "n4", "n5"}
+			pool := []string{"n1", "n2", "n3", "n4", "n5", ""}
 			ids := []uint16{0, 1, 2, 3, 4, 5, 6, 0xffff}
 			m := map[string]map[uint16]string{}
 			for _, cl := range []string{"*", "a", "b", "c"} {
